@@ -414,26 +414,18 @@ def buffer_type(ctx, F, fbt):
         if e.kind == "Ok" and e.variant and e.variant.startswith("RGB"):
             pl = e.payload
             if pl[0] == "aggr" and pl[1][2] == "RGB":
-                reads = []
-                for fldv in pl[2]:
-                    nv = N(fldv)
-                    if nv[0] == "aggr" and nv[1][1].endswith("FramebufferField"):
-                        names = nv[1][3]
-                        reads.append(dict(zip(names, nv[2])))
-                # each operand is a call to read_next_u8 at a distinct site; order by dominance
+                # each of the six operands is a read_next_u8 call; the raw term carries the call's block (calls on the
+                # mutable reader are site-tagged), so the order of the reads is the dominance order of those blocks
                 sites = []
-                for d in reads:
-                    for nm in ("position", "size"):
-                        sites.append((nm, d.get(nm)))
-                callsites = [x[1][3] if False else x[1] for x in sites]
-                order = []
-                for nm, t in sites:
-                    raw = None
-                    for bb, tt in b.calls():
-                        if M.callee_key(tt) == (r8[0]["key"] if len(r8) == 1 else None) and N(A.tb.call_value(tt, bb)) == t:
-                            raw = bb
-                    order.append(raw)
-                if all(o is not None for o in order) and len(order) == 6:
+                for fldv in pl[2]:
+                    rv_ = G.strip(fldv)
+                    if rv_[0] == "aggr" and rv_[1][1].endswith("FramebufferField"):
+                        for nm, opnd in zip(rv_[1][3], rv_[2]):
+                            o = G.strip(opnd)
+                            bb_ = o[3][1] if o[0] == "call" and len(r8) == 1 and o[1] == r8[0]["key"] and o[3] is not None else None
+                            sites.append((nm, bb_))
+                order = [x[1] for x in sites]
+                if all(o is not None for o in order) and len(order) == 6 and len(set(order)) == 6:
                     rgb_ok = all(b.dominates(order[j], order[j + 1]) and order[j] != order[j + 1] for j in range(5)) and \
                         [s[0] for s in sites] == ["position", "size"] * 3 and list(pl[1][3]) == ["red", "green", "blue"]
     ctx.check(rgb_ok, "G6", "buffer_type:rgb", "direct-RGB colour info: six consecutive byte reads in the order red position, red mask size, green position, green mask size, "
